@@ -13,7 +13,7 @@ ID = "C14"
 LEVEL = "exploration"
 TECHNIQUE = "shadow-registry oracle after every operation + icontract class invariant on Model"
 RULE = ("alphabet {create a, create b, create p (an agent whose initialize() creates a companion agent), a creation whose initialize() raises, a creation whose initialize() deletes the oldest agent of its own type, delete_agents(agent_ids(a)) with the model's own list, create_agents(a,2), delete oldest, delete newest, delete two ids, delete unknown id, "
-        "configure_agents, Model.configure(dictionary), reset, flip state, an agent whose constructor creates another agent, a configuration that fails half way, two transient agents that delete themselves in their reset_cache() hook when idle, Model.reset_cache()}: ALL sequences of length<=3 (quick) / <=4 (thorough), plus 2500 / 60000 seeded random sequences "
+        "configure_agents, Model.configure(dictionary), reset, flip state, an agent whose constructor creates another agent, a configuration that fails half way, two transient agents that delete themselves in their reset_cache() hook when idle, Model.reset_cache()}: ALL sequences of length<=3 (quick) / <=4 (thorough), plus 2500 / 30000 seeded random sequences "
         "of length 10-40; after every operation agent(id) for every id ever issued, agent_ids/agent_count per type, "
         "agent_count_per_state and next_agent per (type,state), random_agents. distinct_nontrivial = distinct operation "
         "sequences that contain at least one deletion/reconfiguration followed by a query on a non-empty population.")
@@ -34,7 +34,7 @@ def gen_cases(tier, seed):
     for p in itertools.product(range(len(OPS)), repeat=2):
         cases.append(dict(kind="enum", prefix=list(p), L=L))
     rng = random.Random(77 + seed)
-    n = 2500 if tier == "quick" else 60000
+    n = 2500 if tier == "quick" else 30000
     for i in range(n):
         cases.append(dict(kind="random", seq=[rng.randrange(len(OPS)) for _ in range(rng.randint(10, 40))]))
     # the repository's own ABM tests, run with the registry / routing / statistics contracts switched on
